@@ -119,18 +119,37 @@ func (w *World) identify(po tabular.PropertyOwner) (string, bool) {
 	case *tabular.Cell:
 		// several cells may hold the same item (a caller-owned copy added to
 		// rows): the live one is the one whose lookup yields this very object
-		first := ""
+		first, firstUnaddr, attachingHit := "", "", false
 		for id := 1; id <= w.nextItem; id++ {
 			mc := w.itemCell[id]
 			if mc == nil || !sameItem(mc.item, x.Item()) {
 				continue
 			}
-			if w.livePtr(mc) == x {
-				return "C" + strconv.Itoa(id), true
+			if p := w.addrPtr(mc); p != nil {
+				if p == x {
+					return "C" + strconv.Itoa(id), true
+				}
+			} else {
+				// a header cell or a cell of a row not yet in a table: the API offers
+				// no lookup that promises the cell itself, so liveness is decided by
+				// what the callback sets being visible afterwards, not by address.
+				// The address is still used to tell apart cells holding the same item.
+				if w.readPtr(mc) == x {
+					return "C" + strconv.Itoa(id), true
+				}
+				// no address to go by (the accessor handed out a copy): prefer a cell of
+				// the row being attached right now, else the most recently added one
+				if firstUnaddr == "" || !attachingHit {
+					firstUnaddr = "C" + strconv.Itoa(id)
+					attachingHit = w.attaching != nil && mc.row == w.attaching
+				}
 			}
 			if first == "" {
 				first = "C" + strconv.Itoa(id)
 			}
+		}
+		if firstUnaddr != "" {
+			return firstUnaddr, true
 		}
 		if first == "" {
 			return "?cell", false
@@ -159,18 +178,28 @@ func (w *World) itemIDOf(item interface{}) (id int, ok bool) {
 	return
 }
 
-// livePtr returns the live cell for a model cell: through CellAt whenever the
-// row is in the table (the one lookup the API promises to be the cell itself),
-// otherwise the element of the row's (or header's) current cell slice.
-func (w *World) livePtr(mc *mCell) *tabular.Cell {
+// addrPtr returns the cell itself for a cell of a row that is in the table:
+// CellAt is the one lookup the API promises to be the cell.  Header cells and
+// cells of rows not (yet) in a table have no such lookup: nil.
+func (w *World) addrPtr(mc *mCell) *tabular.Cell {
 	if mc.row == nil {
 		return nil
 	}
-	if mc.row.attached && !mc.row.header && !mc.row.sep && mc.row.pos > 0 && !w.inAttach {
+	if mc.row.attached && !mc.row.header && !mc.row.sep && mc.row.pos > 0 {
 		if p, err := w.Tab.CellAt(tabular.CellLocation{Row: mc.row.pos, Column: mc.idx + 1}); err == nil {
 			return p
 		}
-		return nil
+	}
+	return nil
+}
+
+// readPtr returns something through which the cell's current state can be
+// READ: the cell itself if addressable, else the element of the slice that
+// Row.Cells()/Headers() hands out — which may be the stored cell or a copy of
+// it; either way it shows what the stored cell holds now.  Never written to.
+func (w *World) readPtr(mc *mCell) *tabular.Cell {
+	if p := w.addrPtr(mc); p != nil {
+		return p
 	}
 	cells := w.liveCellsOf(mc)
 	if mc.idx < len(cells) {
@@ -265,9 +294,9 @@ func (w *World) DoCB(st *Step) (bool, *Violation) {
 				return true, nil
 			}
 			cb.cell = all[len(all)-1-i]
-			p := w.livePtr(cb.cell)
+			p := w.addrPtr(cb.cell)
 			if p == nil {
-				return true, nil
+				return true, nil // not addressable: nothing the API promises to be the live cell
 			}
 			owner = p
 			regTarget = &cb.cell.regs
@@ -389,6 +418,18 @@ func (w *World) expectRowAdd(h *mRow, c *mCell) {
 	w.errSink = h
 	for _, cb := range w.regsAt(ownRow, 0, 1, func(cb *SimCallback) bool { return cb.row == h }) {
 		w.expAdd = append(w.expAdd, cbExpect{cb.id, cellName(c)})
+	}
+	if h.attached {
+		// the statement describes table- and column-level cell callbacks for the
+		// cells a row has WHEN IT IS ADDED; for a cell added later they may fire
+		// (once) or not
+		for _, cb := range w.regsAt(ownTable, 0, 1, nil) {
+			w.optAdd = append(w.optAdd, cbExpect{cb.id, cellName(c)})
+		}
+		col := len(h.cells) + 1
+		for _, cb := range w.regsAt(ownColumn, 0, 1, func(cb *SimCallback) bool { return cb.col == col }) {
+			w.optAdd = append(w.optAdd, cbExpect{cb.id, cellName(c)})
+		}
 	}
 }
 
@@ -528,6 +569,7 @@ func (w *World) beginPass() {
 func (w *World) beginStep() {
 	w.cbEvents = w.cbEvents[:0]
 	w.expAdd = w.expAdd[:0]
+	w.optAdd = w.optAdd[:0]
 	w.inPass = false
 	w.errSink = nil
 }
@@ -603,6 +645,12 @@ func (w *World) CheckC13(op string) *Violation {
 					break
 				}
 			}
+			for _, e := range w.optAdd {
+				if e.reg == ev.reg && e.target == ev.target {
+					found = true
+					break
+				}
+			}
 			if !found {
 				cb := w.regByID(ev.reg)
 				return v("add-extra:"+ownNames[cb.owner]+"/"+targetNames[cb.target], "add-time %v fired although nothing matching was added", ev)
@@ -652,7 +700,7 @@ func (w *World) lookup(name string) tabular.PropertyOwner {
 		if mc == nil || mc.row == nil {
 			return nil
 		}
-		if p := w.livePtr(mc); p != nil {
+		if p := w.readPtr(mc); p != nil {
 			return p
 		}
 	}
